@@ -1,18 +1,18 @@
-\* generated by mkstorecfg.py - code before the F1 repair: TLC must find the stale-frontier counterexample
+\* generated by mkstorecfg.py - bridge, failing reads (also inside the frontier rebuild) + restart
 CONSTANTS
   Kind = "bridge"
-  Fixed = FALSE
+  Fixed = TRUE
   FixedF11 = TRUE
   H = 3
   MaxBlocks = 3
   MaxEvents = 2
-  MaxLeaves = 5
+  MaxLeaves = 4
   MaxOps = 5
-  Faults = {"stmt", "ctx", "commit"}
-  AllowGap = TRUE
+  Faults = {"read"}
+  AllowGap = FALSE
   Dups = FALSE
   AllowRestart = TRUE
-  AllowReorg = TRUE
+  AllowReorg = FALSE
   Rollups = {}
   ExitRoots = {}
 INIT Init
